@@ -17,6 +17,9 @@ object disappear and that object carries the delete-dependents finalizer, then
   for EVERY listed task whether recorded finished or not (fix 27db662), not on the server — so no pod
   named in `status.tasks` exists in `s.pods` (other than one whose `GetTaskRef` would panic, which the
   kubelet model of the engine never produces);
+* (repair of F-C20-1) that pass found no UNRECORDED task of the Job in the pod cache either: no cached
+  pod labelled with and controlled by the Job that `status.tasks` does not name (a task that was
+  created while the status update recording it failed) — `finalizerTasks s j j.job = []`;
 * the pass issued no pod call: the server's pods are the same before and after.
 (A Job WITHOUT the finalizer goes as soon as the user or the TTL deletes it; the property does not
 speak about those.) -/
@@ -26,9 +29,13 @@ theorem job_gone_implies_tasks_gone {ok : Sys → Action → Prop} {j0 : JobObj}
     a = .work ∧ s.jobCache = some j ∧ j.job.deletionTimestamp.isSome = true ∧
     (∀ r ∈ j.job.status.tasks, getTaskForRef s r = none ∧ liveGetTask s r.name = none ∧
       ∀ p, findPod s.pods r.name = some p → podTask p = none) ∧
+    (∀ p ∈ s.podCache, p.jobLabel = some j.uid → p.ownerUid = some j.uid →
+      (∀ r ∈ j.job.status.tasks, r.name ≠ p.pod.name) → podTask p = none) ∧
+    finalizerTasks s j j.job = [] ∧
     (step s a).pods = s.pods := by
-  obtain ⟨h1, h2, h3, h4, h5⟩ := gone_only_when_no_task (base_of_reach hr) a hal j hj hfin hgone
-  refine ⟨h1, h2, h3, ?_, h5⟩
+  obtain ⟨h1, h2, h3, h4', h5⟩ := gone_only_when_no_task (base_of_reach hr) a hal j hj hfin hgone
+  obtain ⟨h4, hun⟩ := (Furiko.Props.C13.finalizerTasks_nil_iff s j j.job).mp h4'
+  refine ⟨h1, h2, h3, ?_, fun p hp hl ho hn => hun p hp ⟨hl, ho, hn⟩, h4', h5⟩
   intro r hr'
   have hlive := Furiko.Props.C13.confirmed_empty_means_gone s _ h4 r hr'
   refine ⟨?_, hlive, ?_⟩
@@ -68,5 +75,25 @@ theorem f18_regression :
     Ex.sE.pods.map (fun p => (p.pod.name, p.pod.deletionTimestamp.isSome)) = [("job-h-0", true)] ∧
     Ex.sE.calls.map (fun c => (c.verb, c.res, c.name, c.out)) = [("delete", "pods", "job-h-0", "ok")] :=
   ⟨Ex.sE_reach, by decide +kernel, by decide +kernel, by decide +kernel⟩
+
+/-- F-C20-1 regression.  Before the repair the finalizer swept only the tasks LISTED in the status:
+from the start, the run `deliverJob, setFaults ["", "conflict"], work` creates pod `job-h-0` while the
+status update that records it fails; after `deliverPod, userDelete, deliverJob` the finalizer pass
+(`work`) found nothing listed, dropped the finalizer, and the Job object disappeared while `job-h-0`
+still existed with no delete issued (only the garbage collector would have removed it).  On the
+current model the same pass adopts the unrecorded task from the pod cache, issues its delete, records
+it and KEEPS the finalizer (`Ex.sG`); once the kubelet has removed the pod and the events are delivered
+(`Ex.sH`) the next pass removes the Job: it is gone only after its task is gone. -/
+theorem f_c20_1_regression :
+    Reach anyAction Ex.job Ex.sG ∧
+    Ex.sG.job.map (fun j => (j.finalizer, j.job.deletionTimestamp.isSome, j.job.status.tasks.map (·.name))) =
+      some (true, true, ["job-h-0"]) ∧
+    Ex.sG.pods.map (fun p => (p.pod.name, p.pod.deletionTimestamp.isSome)) = [("job-h-0", true)] ∧
+    Ex.sG.calls.map (fun c => (c.verb, c.res, c.name, c.out)) =
+      [("delete", "pods", "job-h-0", "ok"), ("update", "jobs", "job", "ok")] ∧
+    Reach anyAction Ex.job Ex.sH ∧ Ex.sH.job.map (·.finalizer) = some true ∧ Ex.sH.pods = [] ∧
+    (step Ex.sH .work).job = none :=
+  ⟨Ex.sG_reach, by decide +kernel, by decide +kernel, by decide +kernel, Ex.sH_reach, by decide +kernel,
+    by decide +kernel, by decide +kernel⟩
 
 end Furiko.Props.C13Hist
